@@ -62,7 +62,9 @@ pub open spec fn mask_f3() -> bool { @@F3@@ }
 pub open spec fn divceil_side(d: int) -> bool { if mask_f2() { d > 0 } else { d != 0 } }
 
 pub open spec fn bcast_side(a: int, b: int) -> bool {
-    if mask_f3() { a >= 1 && b >= 1 && (a == b || a == 1 || b == 1) } else { true }
+    // (unmasked: operands >= 0, the documented meaning of the variant and the premise under
+    // which U-symexpr proves range/is_positive)
+    if mask_f3() { a >= 1 && b >= 1 && (a == b || a == 1 || b == 1) } else { a >= 0 && b >= 0 }
 }
 
 /// "evaluates without division by zero" over the integers (+ the mask side conditions).
@@ -82,16 +84,15 @@ pub open spec fn okw(e: SymExpr, env: Env) -> bool
     }
 }
 
-/// "evaluates without division by zero or overflow": okw + every node's value is an i32.
-/// (Symbols declared positive are not restricted here: the obligation is proved for more
-/// assignments than the property asks for.)
+/// "evaluates without division by zero or overflow" under an admissible assignment: okw +
+/// every node's value is an i32 + symbols declared positive are >= 0.
 pub open spec fn okp(e: SymExpr, env: Env) -> bool
     decreases e
 {
     &&& in_i32(ev(e, env))
     &&& match e {
         SymExpr::Value(x) => true,
-        SymExpr::Var(sym) => true,
+        SymExpr::Var(sym) => sym.positive ==> env[sym.name@] >= 0,
         SymExpr::Add(l, r) | SymExpr::Sub(l, r) | SymExpr::Mul(l, r)
         | SymExpr::Max(l, r) | SymExpr::Min(l, r) => okp(*l, env) && okp(*r, env),
         SymExpr::Div(l, r) => okp(*l, env) && okp(*r, env) && ev(*r, env) != 0,
@@ -118,10 +119,9 @@ pub open spec fn satisfiable(e: SymExpr) -> bool {
 }
 
 /// a == b (SymExpr's structural equality up to commutation of Add/Mul/Max/Min/Broadcast
-/// operands, symbols compared by name) => same value and same definedness.
+/// operands, symbols compared by name only) => same value under every assignment.
 pub open spec fn same_meaning(a: SymExpr, b: SymExpr) -> bool {
-    forall|env: Env| #![trigger ev(a, env)] #![trigger ev(b, env)]
-        ev(a, env) == ev(b, env) && okw(a, env) == okw(b, env) && okp(a, env) == okp(b, env)
+    forall|env: Env| #![trigger ev(a, env)] #![trigger ev(b, env)] ev(a, env) == ev(b, env)
 }
 
 // ---------------------------------------------------------------- unfolding hints
@@ -147,7 +147,7 @@ pub broadcast proof fn lemma_unfold_okp(e: SymExpr, env: Env)
         okw(e, env),
         match e {
             SymExpr::Value(x) => ev(e, env) == x as int,
-            SymExpr::Var(sym) => true,
+            SymExpr::Var(sym) => ev(e, env) == env[sym.name@] && (sym.positive ==> ev(e, env) >= 0),
             SymExpr::Add(l, r) => okp(*l, env) && okp(*r, env) && ev(e, env) == ev(*l, env) + ev(*r, env),
             SymExpr::Sub(l, r) => okp(*l, env) && okp(*r, env) && ev(e, env) == ev(*l, env) - ev(*r, env),
             SymExpr::Mul(l, r) => okp(*l, env) && okp(*r, env) && ev(e, env) == smul(ev(*l, env), ev(*r, env)),
